@@ -11,34 +11,50 @@ import (
 // RacePass runs the scenario bodies on real, free-running goroutines (no scheduler, no hooks) so that a binary
 // built with -race can observe unsynchronised accesses. It is sampling, and reported as such.
 func RacePass(scs []*Scenario, backends []string, rounds int) (runs int) {
-	for _, b := range backends {
-		in := drv.MustOpen(b)
-		for _, sc := range scs {
-			for r := 0; r < rounds; r++ {
-				if _, err := in.Fresh(nil); err != nil {
-					panic(err)
-				}
-				for _, o := range sc.Setup {
-					drv.Exec(in, o)
-				}
-				var wg sync.WaitGroup
-				for _, ops := range sc.Threads {
-					ops := ops
-					wg.Add(1)
-					go func() {
-						defer wg.Done()
-						for _, o := range ops {
-							drv.Exec(in, o)
-						}
-					}()
-				}
-				wg.Wait()
-				in.V.ForgetLeaks()
-				runs++
-			}
-		}
-		in.Close()
+	type task struct {
+		b  string
+		sc *Scenario
 	}
+	tasks := []task{}
+	for _, b := range backends {
+		for _, sc := range scs {
+			tasks = append(tasks, task{b, sc})
+		}
+	}
+	var mu sync.Mutex
+	ParallelFor(len(tasks), 0, func(w, i int) {
+		t := tasks[i]
+		in := drv.MustOpen(t.b)
+		defer in.Close()
+		n := rounds
+		if len(t.sc.Threads) > 0 && len(t.sc.Threads[0]) > 0 && len(t.sc.Threads[0][0].Docs) > 100 {
+			n = 2 // large batches: a couple of rounds are enough to expose unsynchronised accesses
+		}
+		for r := 0; r < n; r++ {
+			if _, err := in.Fresh(nil); err != nil {
+				panic(err)
+			}
+			for _, o := range t.sc.Setup {
+				drv.Exec(in, o)
+			}
+			var wg sync.WaitGroup
+			for _, ops := range t.sc.Threads {
+				ops := ops
+				wg.Add(1)
+				go func() {
+					defer wg.Done()
+					for _, o := range ops {
+						drv.Exec(in, o)
+					}
+				}()
+			}
+			wg.Wait()
+			in.V.ForgetLeaks()
+			mu.Lock()
+			runs++
+			mu.Unlock()
+		}
+	})
 	return runs
 }
 
